@@ -14,7 +14,7 @@ VERIF = os.path.dirname(os.path.dirname(os.path.abspath(__file__)))
 REPO = os.environ.get("VERIF_REPO", "/repo")
 BUILD = os.path.join(VERIF, ".build")
 NIGHTLY = "nightly-2026-08-21"
-NCPU = max(1, min(16, os.cpu_count() or 1))
+NCPU = max(1, min(16, int(os.environ.get("VERIF_NCPU", "0")) or os.cpu_count() or 1))
 
 OFFLINE_ENV = {"CARGO_NET_OFFLINE": "true", "GOPROXY": "off", "PIP_NO_INDEX": "1"}
 
